@@ -945,6 +945,15 @@ class Interp:
                     if not self.bind_cell(s["pat"], v.fields[s["field"]], fr):
                         return False
                 return True
+            if not pat["subs"]:
+                return True             # `()` and empty struct patterns inspect nothing
+            if isinstance(v, SymV):
+                # an opaque value taken apart: its components are opaque values of their own
+                for s in pat["subs"]:
+                    nm = "%s.%s" % (v.name, s["field"])
+                    if not self.bind(s["pat"], SymV(nm), fr, Cell(SymV(nm), nm)):
+                        return False
+                return True
             raise Unrecognised("leaf pattern on %r" % (v,))
         if k == "Or":
             for p in pat["pats"]:
@@ -1375,6 +1384,15 @@ class Interp:
         m = models.lookup(self, path, fnref)
         if m is not None:
             return m(self, args, n, fnref)
+        dk = fnref.get("defkind", "") if isinstance(fnref, dict) else ""
+        if dk.startswith("Ctor"):
+            # a tuple-struct / tuple-variant constructor used as a function value (`.map(UnionIndex::OnlyL)`, `.map(Some)`)
+            owner = fnref.get("ctor_of", path)
+            if "Variant" in dk:
+                adt, variant = owner.rsplit("::", 1)
+            else:
+                adt, variant = owner, owner.rsplit("::", 1)[-1]
+            return StructV(adt, variant, {str(i): Cell(a, str(i)) for i, a in enumerate(args)})
         b = self.facts.bodies.get(path)
         if b is not None and b["kind"] == "closure":
             # Fn*::call* resolved to a closure body: go through the closure value (upvars)
